@@ -98,8 +98,9 @@ def build_case(plan, world, home):
 
     def rec(p, k, i, prev=None):
         world.trace.append((p, k, i, prev))
-        if world.sandbox_dir_probe is not None and not world.sandbox_seen and world.sandbox_dir_probe():
-            pass
+        world.cwd_at[len(world.trace)] = os.getcwd()
+        if (p, i, k) in plan.get('chdir', ()):  # an instruction that changes the current directory (used by C04)
+            os.chdir(plan['chdir_target'])
 
     def r_svh(b):
         raise_if(b)
@@ -143,7 +144,6 @@ def build_case(plan, world, home):
 
             def validate_post_setup(self, environment):
                 rec(p, 'SValPost', i)
-                world.cwd_at[len(world.trace)] = os.getcwd()
                 return r_svh(beh(p, i, 'SValPost'))
 
         if p == 'Conf':
@@ -158,7 +158,6 @@ def build_case(plan, world, home):
             class I(Common, SetupPhaseInstruction):
                 def main(self, environment, settings, os_services, settings_builder):
                     rec(p, 'SMain', i)
-                    world.cwd_at[len(world.trace)] = os.getcwd()
                     world.sds_root = str(environment.sds.root_dir)
                     if i == 0:
                         settings_builder.stdin = ExeInputStdin()
